@@ -380,6 +380,15 @@ class Result:
     def count(self, key, n=1):
         self.hist[key] = self.hist.get(key, 0) + n
 
+    def maxstat(self, key, v):
+        """a maximum over the run, kept as the exponent bucket: key_le_1e-XX counts (merges by addition over shards)"""
+        import math as _m
+        if v <= 0:
+            b = "0"
+        else:
+            b = "le_1e%d" % int(_m.ceil(_m.log10(v)))
+        self.count("%s_%s" % (key, b))
+
     def case(self, obj, nontrivial=True):
         self.evaluations += 1
         if nontrivial:
@@ -437,7 +446,7 @@ def teams_close(g, A, B, rel):
     return None
 
 
-def corr_games(res, games, kind_on_mismatch, label, drv=None):
+def corr_games(res, games, kind_on_mismatch, label, drv=None, exact_sample=(24, 60)):
     """implementation vs the model driver on rate games; records mismatches; returns
     list of (game, impl, model)"""
     drv = drv or Driver()
@@ -461,6 +470,11 @@ def corr_games(res, games, kind_on_mismatch, label, drv=None):
                     if 0 <= pid < len(flat) and flat[pid] > 0 and abs(s_ / flat[pid] - rk) <= 1e-12 * rk:
                         res.count("kappa_floor_hits")
         results.append((g, impl, model))
+    if exact_sample and games:
+        # tier B-exact: the formula the code evaluates, recorded operation by operation, against the model on 192-bit floats
+        import exact
+        n = size(res, *exact_sample)
+        exact.exact_rate_games(res, games[:: max(1, len(games) // n)][:n], label, kind_on_mismatch, drv=drv)
     return results
 
 
